@@ -18,7 +18,8 @@ from gemato.find_top_level import find_top_level_manifest
 
 PROPERTY = 'C15'
 LEVEL = 'exploration'
-RULE = ('Hypothesis: directory chain d0/../dn (n <= 6) with look-alike '
+RULE = ('(cli-paths) C01 trees, 2..3 directories given to `gemato verify -k` / `update` in one invocation and one invocation each: same exit status and errors. (discovery) ' 
+        'Hypothesis: directory chain d0/../dn (n <= 6) with look-alike '
         'names (foo, foobar, foo.d, fo); per level no Manifest / plain / one '
         'compressed variant / (rarely) unparsable text; IGNORE entries '
         'naming the start path relative to that level, an ancestor of it, a '
